@@ -26,10 +26,10 @@ PROP_OF = {"simplify": "C07", "substitute_contracted": "C08",
 
 
 class Flow:
-    def __init__(self, wid, start, tsyms, names, asm0):
+    def __init__(self, wid, start, tsyms, names, asm0, alias_cc=False):
         self.wid = wid
         self.names = names
-        self.ctx = adapter.Ctx(names=names)
+        self.ctx = adapter.Ctx(names=names, alias_cc=alias_cc)
         self.tsyms = list(tsyms)
         self.start = adapter.project_expr(start, self.ctx)
         self.tgt = [self.ctx.index(s) for s in self.tsyms]
@@ -105,7 +105,8 @@ def workflows(quick):
     names = oracle.gs_names(4)
     for n in (tn.left_adc_amplitude, tn.right_adc_amplitude, "Wq"):
         names.setdefault(n, len(names) + 1)
-    asm0 = {"real": False, "explicit_denominators": False, "spin": False}
+    asm0 = {"real": False, "explicit_denominators": False, "spin": False,
+            "fock_diag": False}
     mp = GroundState(Operators("mp"))
     isr = IntermediateStates(mp, "pp")
     m = SecularMatrix(isr)
@@ -293,6 +294,10 @@ def run_pipelines(chk, only_prop=None):
 
 def run(chk):
     run_pipelines(chk, None)
+    from .chains import run_chains
+    quick = chk.tier == "quick"
+    run_chains(chk, 16 if quick else 150,
+               cfg="PipelineGen.cfg" if quick else "PipelineGen_l6.cfg")
     return chk.finish(
         rule="recorded workflows (pp-ADC(2) ph/ph block: real -> rename -> "
              "simplify -> diagonalize_fock -> reduce -> factor -> code; MP2 "
